@@ -134,5 +134,6 @@ def apply_changes(files, changes):
             for p in [p for p in files if p.startswith(c.resource.path + "/")]:
                 files.pop(p)
 
-    go(changes)
+    if changes is not None:
+        go(changes)
     return files
